@@ -65,10 +65,27 @@ class PExplicit(Proto):
     def pm(self) -> int: return 2
 G_T = typing.TypeVar("G_T")
 class Gen(typing.Generic[G_T]): pass
+class GAbs(abc.ABC, typing.Generic[G_T]):                 # generic AND abstract
+    @abc.abstractmethod
+    def gm(self) -> G_T: ...
+class GImpl(GAbs[int]):
+    def gm(self): return 1
+class GImplGen(GAbs[G_T]):
+    def gm(self): return None
+@runtime_checkable
+class GProto(Protocol[G_T]):                               # generic runtime protocol
+    def gpm(self) -> G_T: ...
+class GPImpl:
+    def gpm(self): return 1
+class GPExplicit(GProto[int]):
+    def gpm(self): return 1
+GEN_TYPES = {"GAbs": GAbs, "GAbs_int": GAbs[int], "GImpl": GImpl, "GImplGen": GImplGen, "GImplGen_str": GImplGen[str], "GProto": GProto,
+             "GProto_int": GProto[int], "GPImpl": GPImpl, "GPExplicit": GPExplicit}
 TYPES = {"int": int, "str": str, "bool": bool, "C": C, "D": D, "Abs": Abs, "Impl": Impl, "ConcreteABC": ConcreteABC,
          "SubConcreteABC": SubConcreteABC, "Proto": Proto, "PImpl": PImpl, "PExplicit": PExplicit, "List_int": typing.List[int],
          "list": list, "list_str": list[str], "Gen": Gen, "Gen_int": Gen[int], "Opt_int": typing.Optional[int], "Sequence": typing.Sequence,
          "Seq_int": typing.Sequence[int]}
+TYPES.update(GEN_TYPES)
 def expected_type_match(pred, loc):
     """documented: a concrete class matches exactly that type; abstract classes and runtime protocols every subclass/implementation;
     a parametrised generic matches exactly that parametrisation; a bare generic every parametrisation"""
@@ -78,9 +95,12 @@ def expected_type_match(pred, loc):
     if pred == "Sequence": return loc in ("Sequence", "Seq_int", "List_int", "list", "list_str", "str")
     if pred == "list": return loc in ("list", "List_int", "list_str")
     if pred == "Gen": return loc in ("Gen", "Gen_int")
+    if pred == "GAbs": return loc in ("GAbs", "GAbs_int", "GImpl", "GImplGen", "GImplGen_str")        # bare generic + abstract: every subclass, every parametrisation
+    if pred == "GProto": return loc in ("GProto", "GProto_int", "GPImpl", "GPExplicit")
+    if pred == "GImplGen": return loc in ("GImplGen", "GImplGen_str")
     return pred == loc or {pred, loc} == {"List_int", "list_int"}
 TYPE_PREDS = ["int", "str", "bool", "C", "D", "Abs", "Impl", "ConcreteABC", "SubConcreteABC", "Proto", "PImpl", "List_int", "list", "list_str",
-              "Gen", "Gen_int", "Opt_int", "Sequence", "Seq_int"]
+              "Gen", "Gen_int", "Opt_int", "Sequence", "Seq_int", "GAbs", "GAbs_int", "GImpl", "GImplGen", "GImplGen_str", "GProto", "GProto_int", "GPImpl"]
 
 def fld(name, tp=int):
     return InputFieldLoc(type=tp, field_id=name, default=NoDefault(), metadata={}, is_required=True)
@@ -134,10 +154,29 @@ IDENT = [
     ("P.n[D] == P['n'][D]", lambda: P.n[D], lambda: P["n"][D]),
 ]
 IDENT_BUILT = [(nm, a(), b()) for nm, a, b in IDENT]
+# pattern OBJECTS that were already used (checker built, evaluated, given to a provider, operand of | & ^ ~) and are extended afterwards
+def _use(pat):
+    ch = pat.build_loc_stack_checker()
+    ch.check_loc_stack(None, LocStack(TypeHintLoc(type=int)))
+    loader(pat, lambda x: x)
+    (pat | P[int]); (pat & P[int]); (pat ^ P[int]); (~pat)
+    Retort(recipe=[loader(pat, lambda x: x)]).get_loader(int)
+    return pat
+_u, _v, _w, _x = _use(P[C]), _use(P.n), _use(P[C].n), _use(P[int, D])
+REUSED = [
+    ("used P[C] then .n", _u.n, P[C].n), ("used P[C] then ['n']", _u["n"], P[C]["n"]), ("used P[C] then + P.n", _u + P.n, P[C].n),
+    ("used P[C] then [D]", _u[D], P[C][D]), ("used P[C] then .n.m", _u.n.m, P[C].n.m), ("P[int] + used P[C]", P[int] + _u, P[int][C]),
+    ("used P.n then [D]", _v[D], P.n[D]), ("used P.n then .m", _v.m, P.n.m), ("used P[C].n then .m", _w.m, P[C].n.m),
+    ("P[int] + used P[C].n", P[int] + _w, P[int][C].n), ("used P[C].n then [D]", _w[D], P[C].n[D]), ("used P[int, D] then .n", _x.n, P[int, D].n),
+    ("used P[C] again", _u, P[C]), ("used P.n again", _v, P.n), ("used P[C].n again", _w, P[C].n),
+    ("used P[C] then generic_arg", _u.generic_arg(0, int), P[C].generic_arg(0, int)),
+]
 def identities(n, l0, l1, l2):
     st = real_stack(n, l0, l1, l2)
     if len(st) == 0: return True
     for nm, a, b in IDENT_BUILT:
+        if chk(a, st) != chk(b, st): return False
+    for nm, a, b in REUSED:
         if chk(a, st) != chk(b, st): return False
     # and the semantics of a chain on real locations: tail satisfies the elements in order
     last_is_n = isinstance(st.last, InputFieldLoc) and st.last.field_id == "n"
@@ -235,9 +274,9 @@ def nat_identities():
 def chk_identities(n, l0, l1, l2):
     return identities(n, l0, l1, l2)
 ''', timeout=300, family="documented identities and chain semantics on real location stacks (labelled enumeration)",
-          bounds="all stacks of depth <= 3 over 9 locations (type / field / generic-parameter locations); 10 identities")
+          bounds="all stacks of depth <= 3 over 9 locations (type / field / generic-parameter locations); 10 identities; 16 extensions of pattern objects that were already built and used")
     m.nat("type_matrix", NAT, timeout=120, family="class predicates (labelled enumeration)",
-          bounds="19 type predicates x 20 location types x 2 stack shapes, plus negation")
+          bounds="27 type predicates x 29 location types (incl. generic abstract classes and generic runtime protocols, bare and parametrised) x 2 stack shapes, plus negation")
     me = Module("c10_e2e").pre(SETUP).pre(E2E)
     me.ob("bound_e2e", "a: int, ia: int, ib: int, x: int", "return e2e(a, ia, ib, x)", timeout=tmo,
           family="end-to-end: predicates select the marker loader at the probed locations", bounds="all int field values")
